@@ -442,10 +442,10 @@ SAN = "p255-extnd-san"
 
 def streams(ctx, scale=1):
     quick = ctx.tier == "quick"
-    ng = (260 if quick else 20000) * scale
-    nm = (70 if quick else 6000) * scale
+    ng = (260 if quick else 15000) * scale
+    nm = (70 if quick else 4000) * scale
     part = (lambda i: (i, 3)) if quick else (lambda i: None)
-    ne = (160 if quick else 8000) * scale
+    ne = (160 if quick else 6000) * scale
     nh = (14 if quick else 400) * scale
     res = []
     for cfg in CONFIGS + [SAN]:
@@ -467,8 +467,20 @@ def streams(ctx, scale=1):
                     keep.append(l)
                 lines += keep + witnesses(cv, cfg)
             else:
-                lines += (gen_group(ctx.rng, cv, SYS[cfg], ng) + gen_mul(ctx.rng, cv, SYS[cfg], nm, part(CONFIGS.index(cfg)))
-                          + gen_enc(ctx.rng, cv, SYS[cfg], ne))
+                ml = gen_mul(ctx.rng, cv, SYS[cfg], nm, part(CONFIGS.index(cfg)))
+                # ed_mul_lwreg with a scalar of more than 256 bits overruns a stack buffer (C17-F2/F5) and may kill the oracle: every fault
+                # costs a restart and the run gives up after 8, so only the first two such lines of a stream keep their scalar
+                seen = 0
+                for i, l in enumerate(ml):
+                    t = l.split()
+                    if any(v == "lwreg" and _bits(k) > 256 for v, k in routines(cfg, t)):
+                        seen += 1
+                        if seen > 2:
+                            for j in (3, 4, 5):
+                                if j < len(t) and "," not in t[j] and _bits(t[j]) > 256:
+                                    t[j] = hx(int(t[j], 16) % (1 << 250))
+                            ml[i] = " ".join(t)
+                lines += gen_group(ctx.rng, cv, SYS[cfg], ng) + ml + gen_enc(ctx.rng, cv, SYS[cfg], ne)
                 lines += gen_map(ctx.rng, nh) + witnesses(cv, cfg)
         res.append({"name": "ed-" + cfg, "cfg": cfg, "exe": exe, "lines": lines})
     return res
@@ -526,6 +538,7 @@ def routines(cfg, t):
             if sim == "inter" and fix == "fix_lwnaf":
                 return [("inter", k), ("inter", m)]
             v = sim
+            P = "1,0"        # the first base is the generator, whatever the (ignored) token says: never the neutral element
         if v == "sim":
             v = sim
         if v in ("trick", "inter", "joint"):
